@@ -642,6 +642,17 @@ def read_binary_mesh(a_bytes, b_bytes, rock_names):
 # reference writer (what a Fortran program's formatted WRITE with the reference formats puts out)
 
 
+# how the reference writer prints reals: the legal variations between Fortran compilers (ref/fortnum.render_E):
+# exponent letter E or D, blank instead of '+' in the exponent; the letter is dropped for 3-digit exponents
+NUMBER_STYLE = {}
+STYLES = {'E': {}, 'D': {'letter': 'D'}, 'blank-plus': {'exp_blank_plus': True}}
+
+
+def set_number_style(name):
+    NUMBER_STYLE.clear()
+    NUMBER_STYLE.update(STYLES[name])
+
+
 def put_record(vals, rec):
     """One record: Ew.d as 0.ddddE+ee (leading zero dropped when the sign needs its column), Iw and Aw
     right-/left-justified, None -> blanks.  Raises when a value does not fit (asterisks)."""
@@ -660,7 +671,7 @@ def put_record(vals, rec):
         elif f.kind == 'I':
             s = fortnum.render_I(int(v), f.width)
         else:
-            s = fortnum.render_E(float(v), f.width, f.d)
+            s = fortnum.render_E(float(v), f.width, f.d, **NUMBER_STYLE)
         if '*' in s:
             raise ValueError('%s.%s: %r does not fit' % (rec, f.name, v))
         buf[f.start:f.end] = list(s)
